@@ -19,6 +19,8 @@ type JobUnit struct {
 	Package  string       `json:"package"`
 	Messages []string     `json:"messages"` // full names, declaration order, map entries excluded
 	Services []JobService `json:"services"`
+	// FieldExamples: "<message full name>.<field>" -> declared field_examples
+	FieldExamples map[string][]string `json:"field_examples,omitempty"`
 }
 
 type JobService struct {
